@@ -16,7 +16,9 @@ import (
 func c05Skeleton() string {
 	t := &ora.Tok{}
 	pc := func() string { return "<p>" + t.W(21) + "</p>" }
-	img := func() string { return "<img src=\"http://example.com/img/" + t.U() + ".jpg\" width=\"400\" height=\"300\">" }
+	img := func() string {
+		return "<img src=\"http://example.com/img/" + t.U() + ".jpg\" width=\"400\" height=\"300\">"
+	}
 	var sb strings.Builder
 	sb.WriteString("<html><head><title>" + ora.DefaultTitle + "</title></head><body><div class=\"main\">")
 	sb.WriteString(pc())
@@ -58,6 +60,7 @@ var c05Taints = []taint{
 	{name: "srcdoc", key: "srcdoc", val: "<p>x</p>"},
 	{name: "script", tag: "script"},
 	{name: "style-el", tag: "style"},
+	{name: "noscript-markup", tag: "noscript", val: "RAW:<img src=\"x.png\" onerror=\"alert(1)\" id=\"i1\" class=\"c1\" style=\"color:red\"><script>alert(2)</script><style>p{}</style>"},
 	{name: "script-displayed", tag: "script", val: "display:block"},
 	{name: "style-displayed", tag: "style", val: "display:inline"},
 	// thorough only
@@ -69,7 +72,7 @@ var c05Taints = []taint{
 	{name: "on", key: "on", val: "x"},
 }
 
-const c05QuickTaints = 12
+const c05QuickTaints = 13
 
 var c05Skel = c05Skeleton()
 
@@ -117,6 +120,13 @@ func c05Enumerate(tier string, emit func(*eng.Case)) {
 	if tier == "thorough" {
 		urls = append(urls, "http://example.com/a/b.html")
 	}
+	// singles also under a page URL that is not absolute (scheme forgotten by the caller)
+	emit(&eng.Case{Kind: "taint", URL: "example.com/articles/x", P: map[string]string{"ops": ""}})
+	for e := 0; e < nEl; e++ {
+		for t := 0; t < nT; t++ {
+			emit(&eng.Case{Kind: "taint", URL: "example.com/articles/x", P: map[string]string{"ops": fmt.Sprintf("%d:%d", e, t)}})
+		}
+	}
 	for _, u := range urls {
 		emit(&eng.Case{Kind: "taint", URL: u, P: map[string]string{"ops": ""}})
 		for i := range ops {
@@ -124,7 +134,7 @@ func c05Enumerate(tier string, emit func(*eng.Case)) {
 		}
 		for i := range ops {
 			for j := i + 1; j < len(ops); j++ {
-				if tier != "thorough" && (ops[i].t >= 10 || ops[j].t >= 10) {
+				if tier != "thorough" && (ops[i].t >= 10 || ops[j].t >= 10) && !(ops[i].t == 10 && ops[j].t < 8 || ops[j].t == 10 && ops[i].t < 8) {
 					continue // quick: the displayed script/style children as singles only
 				}
 				if ops[i].el == ops[j].el && c05Taints[ops[i].t].key != "" && c05Taints[ops[i].t].key == c05Taints[ops[j].t].key {
@@ -197,10 +207,15 @@ func c05Check(c *eng.Case) *eng.Outcome {
 					return o // cannot hold children; trivially fine
 				}
 				ch := dom.CreateElement(t.tag)
-				if t.val != "" {
-					ch.Attr = append(ch.Attr, html.Attribute{Key: "style", Val: t.val})
+				if strings.HasPrefix(t.val, "RAW:") {
+					// raw text child, as the HTML parser (scripting enabled) produces for <noscript>
+					dom.AppendChild(ch, dom.CreateTextNode(t.val[4:]))
+				} else {
+					if t.val != "" {
+						ch.Attr = append(ch.Attr, html.Attribute{Key: "style", Val: t.val})
+					}
+					dom.AppendChild(ch, dom.CreateTextNode("zzinert{}"))
 				}
-				dom.AppendChild(ch, dom.CreateTextNode("zzinert{}"))
 				el.AppendChild(ch)
 			} else {
 				el.Attr = append(el.Attr, html.Attribute{Key: t.key, Val: t.val})
@@ -285,7 +300,7 @@ func init() {
 		ID:        "C05",
 		DesignRef: "§5 C05",
 		Rule: "host document with every element kind that has its own rendering path (text blocks with inline markup, list, img, picture, two figures, video with source/track, data table with image, layout table with font, YouTube and Vimeo iframes, twitter blockquote, blockquote, pre, heading), all retained; " +
-			"every element node of its body x every taint {onclick, onerror, raw upper-case ONLOAD, id, class, style, data-x, srcdoc, child <script>, child <style>, the same children carrying an inline display style} (quick) + {onmouseover, raw ID, data-type, unknown, xmlns:og, on} and a page URL (thorough); all singles and all pairs; plus each of the 137 event-handler attributes of the HTML standard on the elements (quick: every third element per handler; thorough: every element). Taints are applied to the parsed tree, so raw-case keys reach the library. " +
+			"every element node of its body x every taint {onclick, onerror, raw upper-case ONLOAD, id, class, style, data-x, srcdoc, child <script>, child <style>, a child <noscript> whose raw text is markup with handlers and scripts, the same script/style children carrying an inline display style} (quick; singles also under a non-absolute page URL) + {onmouseover, raw ID, data-type, unknown, xmlns:og, on} and a page URL (thorough); all singles and all pairs; plus each of the 137 event-handler attributes of the HTML standard on the elements (quick: every third element per handler; thorough: every element). Taints are applied to the parsed tree, so raw-case keys reach the library. " +
 			"Oracle on result.Node: no script/style element; no on* attribute; no id/style; class only 'embed-placeholder' on the placeholder div; data-* only data-type/data-id there. Non-trivial = every tainted host element is represented in the output.",
 		Enumerate: c05Enumerate,
 		Check:     c05Check,
